@@ -89,6 +89,9 @@ type World struct {
 	MaxSteps uint64
 	// HoldAt arms one-shot holds: site -> duration (see policy.Preempt).
 	HoldAt map[string]time.Duration
+	// HoldApp, when set, restricts prefix holds to goroutines it accepts; OnHold is told about a hold.
+	HoldApp func(g *simhook.G) bool
+	OnHold  func(g *simhook.G, site string, d time.Duration)
 	prio     map[string]int // PCT priorities
 	pctPts   map[uint64]bool
 	Stalls   int
@@ -372,15 +375,31 @@ type policy World
 func (p *policy) Preempt(g *simhook.G, site string) bool {
 	w := (*World)(p)
 	st := &w.Strat
-	if d, ok := w.HoldAt[site]; ok {
-		// a targeted scheduling fault armed by the harness: the next goroutine to reach this site is
-		// withheld there for d of simulated time while everything else proceeds (one shot)
-		delete(w.HoldAt, site)
-		g.StallUntil = int64(w.Now() + d)
-		w.Stalls++
-		w.Fault("hold@" + site)
+	if len(w.HoldAt) > 0 {
+		// a targeted scheduling fault armed by the harness: the next goroutine to reach this site (a key
+		// ending in '*' matches by prefix) is withheld there for d of simulated time while everything
+		// else proceeds (one shot)
+		key, d, ok := site, time.Duration(0), false
+		if d, ok = w.HoldAt[site]; !ok {
+			for k, v := range w.HoldAt {
+				if n := len(k); n > 0 && k[n-1] == '*' && len(site) >= n-1 && site[:n-1] == k[:n-1] && (w.HoldApp == nil || w.HoldApp(g)) {
+					if !ok || k < key { // (map order is random: the smallest matching key wins)
+						key, d, ok = k, v, true
+					}
+				}
+			}
+		}
+		if ok {
+			delete(w.HoldAt, key)
+			g.StallUntil = int64(w.Now() + d)
+			w.Stalls++
+			w.Fault("hold@" + key)
+			if w.OnHold != nil {
+				w.OnHold(g, site, d)
+			}
 
-		return true
+			return true
+		}
 	}
 	if st.PCTDepth > 0 {
 		// PCT: at a change point the runner's priority drops below everything else
